@@ -156,8 +156,8 @@ theorem C13_legacy_sender_alters_received :
 /-- **Outcomes after the client's own abort, at any position.** Let the client script cancel (or let its
 deadline pass) anywhere: before, between or after any of its ops, with a message pending, with the
 handler between a send and its return, or already returned. `Wrap.asyncRuns` lists every client
-transcript the wrapper can then produce (the handler unwinds on its own; how far it has got when the
-client looks is not determined). In each of them the part up to the abort is the rendezvous run, and
+transcript the wrapper can then produce (how far the handler had got on its own when the abort struck
+(`advance`), and how far it has unwound when the client looks (`unwind`), are not determined). In each of them the part up to the abort is the rendezvous run, and
 every later op yields only: the next message, the cancellation class (`aborted`, or the context's
 status coming back from the handler), the status the handler script returns, header / trailer
 metadata. -/
@@ -176,16 +176,18 @@ theorem C13_async_outcomes (shape : Shape) (ss : List SOp) (fin : Fin) (cs : Lis
   | some r =>
     obtain ⟨s, cc, srv⟩ := r
     rw [hst] at ht
-    simp only [List.mem_map] at ht
-    obtain ⟨evs, hevs, rfl⟩ := ht
+    simp only [List.mem_map, List.mem_flatMap] at ht
+    obtain ⟨evs, ⟨p, hp, hevs⟩, rfl⟩ := ht
     refine Or.inr ⟨evs, rfl, ?_⟩
     have hinv := stateAt_inv Cfg.current fin (cancelFin a) reuse {} false (.running ss) pre
       (by show ({} : Wrap.State).closed = none; rfl) _ hst
     have hop : Wrap.opErr Cfg.current a = cancelFin a := by simp [Wrap.opErr, Cfg.current]
     rw [hop] at hevs
-    have hinv' : AInv fin (cancelFin a) ((Wrap.impl Cfg.current).abort s a) srv := by
-      cases srv <;> exact hinv
-    exact after_allowed Cfg.current fin (cancelFin a) a reuse cc post false _ srv hinv' evs hevs
+    have hadv := advanced_inv Cfg.current fin (cancelFin a) cc s srv hinv p hp
+    obtain ⟨ps, psrv⟩ := p
+    have hinv' : AInv fin (cancelFin a) ((Wrap.impl Cfg.current).abort ps a) psrv := by
+      cases psrv <;> exact hadv
+    exact after_allowed Cfg.current fin (cancelFin a) a reuse cc post false _ psrv hinv' evs hevs
 
 /-- **Never a clean end after one's own cancel** (unless the handler itself returned OK): if the handler
 script returns an error, no op after the client's abort reports io.EOF / OK. -/
@@ -224,9 +226,52 @@ after its own cancel could report a clean end although the handler script return
 theorem C13_legacy_cancel_reads_clean_end :
     [Ev.sent, .did .cancel, .fin 0 ""] ∈
       Wrap.asyncRuns Cfg.legacy .bidi [.recv, .recv] (.status 9 "e0") [.send 1, .abort .cancel, .recv] false := by
-  simp [Wrap.asyncRuns, asyncRuns, splitAbort, clientOps, stateAt, go, after, futures, unwind, observe,
+  simp [Wrap.asyncRuns, asyncRuns, splitAbort, clientOps, stateAt, go, after, futures, unwind, observe, advanced, advance,
     Wrap.impl, Wrap.opErr, Cfg.legacy, Wrap.terminal, Wrap.close, Wrap.abort, Wrap.canon, cev, sev, leftT,
     Wrap.xfer_closed, Wrap.xfer_ctxErr]
+
+/-- **What `Header()` reads after the client's own abort is fixed at the abort.** Let the caller's context
+have ended (cancel or deadline) with the stream in ANY state `w` — headers sent, only staged, or none — and
+let the handler unwind in any way from any remaining script `ops` (further SetHeader / SendHeader /
+SetTrailer calls, a SendMsg that flushes the latch, an io.EOF that lets it run on, its return and the flush
+in `Close`): in every state it passes through, `Header()` gives exactly what it gave at the moment of the
+abort — the header that had been SENT by then, or nothing. Metadata only staged at the abort is never
+shown, as over gRPC, where the client has reset the stream (after 1e9d1bd). -/
+theorem C13_header_after_abort_frozen (fin opErr : Fin) (cc : Bool) (ops : List SOp) (w : Wrap.State)
+    (a : Abort) :
+    ∀ f ∈ unwind (Wrap.impl Cfg.current) fin opErr cc (Wrap.abort w a) ops,
+      Wrap.header f.1 = Wrap.header (Wrap.abort w a) ∧
+      Wrap.header (Wrap.abort w a) = some (if w.headerC then w.header else []) := by
+  intro f hf
+  have he : (Wrap.abort w a).ctxErr.isSome = true := rfl
+  refine ⟨(unwind_frozen fin opErr cc ops _ he f hf).header he, ?_⟩
+  unfold Wrap.header Wrap.abort
+  by_cases hc : w.headerC <;> simp [hc]
+
+/-- Not vacuous, and the scripts of the hypothesis include the read: a handler stages a header and waits
+for a request, the client cancels and asks for the header (before and after its terminal RecvMsg): the
+call completes on both transports with an empty header. -/
+example : WFScripts .bidi [.setHeader [("a", "1")], .recv] .ok [.abort .cancel, .header, .recv, .header] = true ∧
+    (Wrap.run .bidi [] [.setHeader [("a", "1")], .recv] .ok [.abort .cancel, .header, .recv, .header]).client =
+      [.did .cancel, .hdr [], .aborted .cancel, .hdr []] := by
+  constructor
+  · simp [WFScripts, conforms, clientOps, sync]
+  · have hopen : Wrap.open .bidi = .ok := by decide
+    simp [Wrap.run, Wrap.runCfg, hopen, clientOps, go, Wrap.impl, Wrap.setHeader, Cfg.current, sevIf,
+      Wrap.abort, Wrap.header, Wrap.terminal, cev, sev, endT, hold, Wrap.holds]
+
+/-- The defect repaired by 1e9d1bd, on the model of the code before it: the handler returns from the
+client's cancel, `Close` flushes the header latch, and the client's `Header()` after its own cancel shows
+metadata that was only staged when it cancelled (gRPC: none). -/
+theorem C13_legacy_staged_header_visible_after_abort :
+    ∃ f ∈ unwind (Wrap.impl { Cfg.current with sendFailsAfterEnd := false }) .ok (cancelFin .cancel) false
+        (Wrap.abort { header := [("a", "1")] } .cancel) [.recv],
+      Wrap.header f.1 = some [("a", "1")] ∧
+      Wrap.header (Wrap.abort { header := [("a", "1")] } .cancel) = some [] := by
+  refine ⟨(Wrap.close { Cfg.current with sendFailsAfterEnd := false } (Wrap.abort { header := [("a", "1")] } .cancel)
+    (cancelFin .cancel), .done), ?_, ?_⟩
+  · simp [unwind, Wrap.impl]
+  · decide
 
 /-- **Unknown method.** A method name that is neither a unary method nor a stream of the service gives
 Unimplemented, from `NewStream` and from `Invoke`, for any service description. -/
@@ -274,9 +319,9 @@ theorem C13_legacy_staged_header_lost :
     ∃ shape out ss fin cs, WFScripts shape ss fin cs = true ∧
       Wrap.runCfg Cfg.legacy shape out ss fin cs ≠ GrpcRef.run shape out ss fin cs := by
   refine ⟨.unary, [], [.recv, .setHeader [("a", "1")]], .status 5 "e0", invokeScript 1, ?_, ?_⟩
-  · simp [WFScripts, conforms, clientOps, sync, invokeScript, firstSend, singleRequest, singleResponse,
+  · simp [WFScripts, conforms, clientOps, sync, invokeOps, firstAbort, invokeScript, firstSend, singleRequest, singleResponse,
       sendOnlyLast, SOp.isRecv, SOp.isSend]
-  · simp only [Wrap.runCfg, GrpcRef.run, C13_testapi_opens, clientOps, invokeScript, firstSend, cloneMD,
+  · simp only [Wrap.runCfg, GrpcRef.run, C13_testapi_opens, clientOps, invokeOps, firstAbort, invokeScript, firstSend, cloneMD,
       List.map]
     simp only [go, Wrap.impl, GrpcRef.impl, Wrap.setHeader, Cfg.legacy, sevIf, Wrap.close, Wrap.terminal,
       Wrap.header, Wrap.trailer, Wrap.canon, cev, sev, endT, GrpcRef.setHeader, GrpcRef.headerWritten,
@@ -292,7 +337,7 @@ theorem C13_legacy_late_setheader_visible :
     [.header, .recv, .trailer], ?_, ?_⟩
   · simp [WFScripts, conforms, clientOps, sync]
   · simp only [Wrap.runCfg, GrpcRef.run, C13_testapi_opens, clientOps, cloneMD, List.map]
-    simp only [go, Wrap.impl, GrpcRef.impl, Wrap.setHeader, Wrap.sendHeader, Wrap.sendHeaderIfNeeded,
+    simp only [go, Wrap.impl, GrpcRef.impl, Wrap.setHeader, Wrap.sendHeader, Wrap.sendHeaderOld, Wrap.sendHeaderIfNeeded, Wrap.sendHeaderIfNeededC, Wrap.sendHeaderC,
       Cfg.legacy, sevIf, Wrap.close, Wrap.terminal, Wrap.header, Wrap.trailer, Wrap.canon, cev, sev, endT,
       GrpcRef.setHeader, GrpcRef.sendHeader, GrpcRef.beforeData, GrpcRef.headerWritten,
       GrpcRef.writeStatus, GrpcRef.header, GrpcRef.terminal, GrpcRef.trailer, GrpcRef.wireStatus,
